@@ -384,3 +384,12 @@ Theorem C10_zero_step_rejected (V : Type) (lc : label -> outcome loc) (st : csta
   /\ set_item_with lc st name (KSlice a b (Some 0)) w = (st, Raise ValueError).
 Proof. exact (@zero_step_rejected V lc st name sr a b pa pb w). Qed.
 Print Assumptions C10_zero_step_rejected.
+
+(* any other pandas index (pd.Index of ints / strs, an irregular DatetimeIndex): the plain model of get_loc (position of the
+   label; compared with every recorded pandas answer on duplicate-free indexes) meets locate_spec for EVERY list of labels *)
+Theorem C10_plain_index_get_loc (ls : list label) : locate_spec ls (plain_get_loc ls).
+Proof. exact (plain_get_loc_spec ls). Qed.
+Print Assumptions C10_plain_index_get_loc.
+Theorem C10_plain_span_ok (ls : list label) : span_ok (fun l => plain_get_loc l) (SPandas ls).
+Proof. exact (plain_span_ok ls). Qed.
+Print Assumptions C10_plain_span_ok.
